@@ -161,3 +161,43 @@ func VerifH_C20_maintenanceWhileIdle() {
 	vf.Assert(!spam, "unbanned-after-silence-while-idle")
 	vf.Reach("unbanned")
 }
+
+// C20.H2b: Pipeline.In with source_name_meta_field: the antispam counts per logical source named by the
+// metadata (e.g. one pod among many behind one input source), so a noisy logical source is refused from the
+// threshold on while a quiet one on the same input source keeps being admitted.
+func VerifH_C20_antispamMetaSource() {
+	threshold := 2 + vf.Choose("threshold", 2)
+	p := &Pipeline{settings: &Settings{Capacity: 2, SourceNameMetaField: "pod", Antispam: AntispamSettings{Threshold: threshold, MaintenanceInterval: time.Hour}},
+		eventLogMu: &sync.Mutex{}, procCount: atomic.NewInt32(1), activeProcs: atomic.NewInt32(0), decoderType: decoder.RAW}
+	p.eventPool = newEventPool(2, 64)
+	p.streamer = newStreamer(verifEventTimeout)
+	w := &verifWorld{streamOf: map[int64]string{}, acked: map[int64]bool{}, dropped: map[int64]bool{}, committed: map[int64]int{}, commitSeq: map[string][]int64{}, capacity: 2}
+	p.input = &verifInput{w: w}
+	p.antispamer = antispam.VerifNewAntispammer(&antispam.Options{Threshold: threshold, MaintenanceInterval: time.Hour, UnbanIterations: 1})
+	sent := map[string]int{}
+	K := vf.Param("K", 6)
+	for i := 0; i < K; i++ {
+		pod := []string{"noisy", "quiet"}[vf.Choose("pod", 2)]
+		withMeta := vf.Choose("has-meta", 4) != 0 // now and then a record without the metadata key: counted under the input source itself
+		var meta map[string]string
+		key := "#src"
+		if withMeta {
+			meta = map[string]string{"pod": pod}
+			key = pod
+		}
+		sent[key]++
+		seq := p.In(1, "src", NewOffsets(int64(i+1), nil), []byte("x\n"), false, meta)
+		accepted := seq != EventSeqIDError
+		if vf.Param("twin", 0) == 1 {
+			vf.Assert(accepted == (sent[key] >= threshold), "admitted-below-the-threshold-of-its-own-logical-source")
+			continue
+		}
+		// the record that reaches the threshold and everything after it is refused; below it, admitted
+		vf.Assert(accepted == (sent[key] < threshold), "admitted-below-the-threshold-of-its-own-logical-source")
+		if accepted {
+			verifDrain(p, "", true)
+		} else {
+			vf.Reach("refused-as-spam")
+		}
+	}
+}
